@@ -116,6 +116,7 @@ class Fn:
         self.calls = []      # (insn, callee, State before, [arg forms])
         self.widened = set()
         self.store_hook = None
+        self.call_hook = None
         self.lost = []       # reasons why precision was lost
         back = set()
         # back edges by DFS
@@ -412,6 +413,8 @@ class Fn:
             if cal in PURE:
                 return
             if cal.startswith(('llvm.memcpy', 'llvm.memset', 'llvm.memmove')) and i.args:
+                if self.call_hook is not None:
+                    self.call_hook(i, st)
                 dv = self.f.defs.get(irrules._strip(self.f, i.args[0][1]))
                 root = i.args[0][1]
                 for _ in range(6):
@@ -717,3 +720,63 @@ def check_direct_out(rep, mod, offz, floor):
                         key='R-OUT-DIRECT|%s|%d' % (fn, i.line or 0), sample='%s: store covered by avail_out >= 1' % fn)
     if n == 0:
         raise AnalysisBroken('R-OUT-DIRECT: no direct store through next_out found')
+
+
+def check_count_resume(rep, mod, off_with_count, floor):
+    """headers that may be written in pieces: the copy resumes at the offset recorded in state->count and count advances by what was copied"""
+    R = rep.rule('R-COUNT-RESUME', 'write_stream_header / write_header (a wrapper or block header written across calls): on every path the memcpy into the output reads the header at offset state->count (the bytes already '
+                 'written), copies n bytes, and state->count afterwards is its old value + n or 0 (complete) - path-sensitive linear forms; the same n moves next_out / avail_out / total_out (R-ACCT-BALANCE)', floor=floor, unit='(function, path states)')
+    MODSETS.update(modsets(mod, off_with_count, off_with_count))
+    for fn in ('write_stream_header', 'write_header'):
+        f = mod.funcs.get(fn)
+        if f is None:
+            raise AnalysisBroken(fn + ' not found')
+        pidx, kind = stream_param(f)
+        a = Fn(mod, f, pidx, kind, off_with_count)
+        a.fields = list(a.fields) + ['#copied']
+        init0 = a.initial
+
+        def initial(init0=init0):
+            st = init0()
+            st.F['#copied'] = {}
+            return st
+        a.initial = initial
+        events = []
+
+        def hook(i, st, a=a, events=events):
+            if not (i.callee or '').startswith('llvm.memcpy'):
+                return
+            dst = a.form(st, i.args[0][1])
+            if canon(dst) != canon(st.F['next_out']):
+                return
+            n = a.form(st, i.args[2][1])
+            events.append((i, canon(st.F['count']), a.form(st, i.args[1][1]), n, st))
+            st.F['#copied'] = add(st.F['#copied'], n)
+        a.call_hook = hook
+        a.run()
+        if not events:
+            raise AnalysisBroken('%s: no copy into next_out found' % fn)
+        seen = set()
+        for i, cnt, src, n, st in events:
+            key = (id(i), cnt, canon(src), canon(n))
+            if key in seen:
+                continue
+            seen.add(key)
+            R.instance()
+            c = dict(cnt)
+            rest = add(src, c, -1)
+            dep = [k for k in c if k != 1 and k in rest]
+            R.check(not dep, mod.where(f, i), '%s: the piece is copied from %s while %s bytes are already written: the copy does not resume at offset state->count' % (fn, fmt(src), fmt(c)), key='R-COUNT-RESUME|%s|src|%d' % (fn, i.line or 0),
+                    sample='%s: source = header + count' % fn)
+        # at the returns: count is 0 (complete) or its entry value plus everything copied on this path
+        done = set()
+        for ri, st in a.rets:
+            final = st.F['count']
+            k = (canon(final), canon(st.F['#copied']))
+            if k in done:
+                continue
+            done.add(k)
+            R.instance()
+            ok = not final or canon(final) == canon(add(lf('E_count'), st.F['#copied']))
+            R.check(ok, mod.where(f, ri), '%s: state->count is %s at this return although %s bytes were copied on this path: it is neither 0 (header complete) nor its entry value plus the bytes copied' % (fn, fmt(final), fmt(st.F['#copied'])), key='R-COUNT-RESUME|%s|final|%s' % (fn, fmt(final)[:40]),
+                    sample='%s: count in {0, old, old + n}' % fn)
